@@ -73,6 +73,70 @@ fn acts(n: &Node, jump_to: u64) -> Vec<Action> {
     v
 }
 
+/// Large batches: n distinct faucets of which one appears twice (the second copy carrying a stray signature), the two copies at
+/// chosen positions - next to each other, far apart, first and last, around the middle - applied as one batch on rayon pools of
+/// 1, 2, 4 and 16 workers (how a large batch is cut into pieces depends on its length and on the pool).  Must be rejected; the
+/// same batch without the second copy must be accepted.
+fn large_batches_with_one_faucet_twice(run: &Run, thorough: bool) {
+    let nets: Vec<NetID> = if thorough { vec![NetID::Custom02, NetID::Testnet, NetID::Custom08] } else { vec![NetID::Custom02] };
+    let sizes: Vec<usize> = if thorough { vec![33, 64, 130, 160, 257, 400, 1030] } else { vec![33, 130, 160, 400] };
+    let pools: Vec<rayon::ThreadPool> = [1usize, 2, 4, 16].iter().map(|n| rayon::ThreadPoolBuilder::new().num_threads(*n).build().unwrap()).collect();
+    let mut cases = 0u64;
+    for net in nets {
+        let (_w, rootn) = root(net, 0, false);
+        let parent = match &rootn.real {
+            Real::Sealed(s) => s.clone(),
+            _ => continue,
+        };
+        let st = parent.next_unsealed();
+        for &n in &sizes {
+            let distinct: Vec<Transaction> = (0..n).map(|i| tx_t(melstructs::TxKind::Faucet, vec![], vec![out_t(1 + i as u128, melstructs::Denom::Mel)], 0, vec![0x1f, (i >> 8) as u8, i as u8])).collect();
+            let positions: Vec<(usize, usize)> = vec![(0, 1), (3, n - 30), (10, n / 2 + 22), (0, n - 1), (n / 2 - 1, n / 2), (n / 4, 3 * n / 4), (n - 2, n - 1)];
+            for pool in &pools {
+                // control: all distinct
+                run.transition();
+                let ok = pool.install(|| {
+                    let mut c = st.clone();
+                    crate::guard::guard(|| c.apply_tx_batch(&distinct))
+                });
+                run.validated();
+                match ok {
+                    Ok(Ok(())) => run.outcome("large-batch:distinct-faucets-accepted"),
+                    Ok(Err(_)) => run.outcome("large-batch:distinct-faucets-rejected(statement is only-if: recorded)"),
+                    Err(_) => run.outcome("large-batch:panic(reported under C09)"),
+                }
+                for &(i, j) in &positions {
+                    if i >= j || j >= n {
+                        continue;
+                    }
+                    let mut batch = distinct.clone();
+                    let mut twin = distinct[i].clone();
+                    twin.sigs = vec![bytes::Bytes::from(vec![3u8; 64])];
+                    batch[j] = twin;
+                    cases += 1;
+                    run.transition();
+                    let r = pool.install(|| {
+                        let mut c = st.clone();
+                        crate::guard::guard(|| c.apply_tx_batch(&batch))
+                    });
+                    run.validated();
+                    match r {
+                        Ok(Ok(())) => run.violation(
+                            "C19",
+                            format!("accepts-faucet-twice-in-a-large-batch/pool={}", if pool.current_num_threads() == 1 { "1" } else { ">1" }),
+                            format!("a batch of {} faucets on genesis[{:?}] in which the faucet at position {} appears again at position {} (with another signature) was accepted on a pool of {} worker(s)", n, net, i, j, pool.current_num_threads()),
+                            json!({"network": format!("{:?}", net), "batch_size": n, "positions": [i, j], "workers": pool.current_num_threads(), "faucet": tx_json(&distinct[i])}),
+                        ),
+                        Ok(Err(_)) => run.outcome("large-batch:faucet-twice-rejected"),
+                        Err(_) => run.outcome("large-batch:panic(reported under C09)"),
+                    }
+                }
+            }
+        }
+    }
+    run.set("large_batches_with_one_faucet_twice", json!({"sizes": sizes, "pool_sizes": [1, 2, 4, 16], "cases": cases}));
+}
+
 pub fn run(run: &Run) {
     let thorough = run.thorough();
     let nets = [NetID::Mainnet, NetID::Testnet, NetID::Custom02, NetID::Custom03, NetID::Custom04, NetID::Custom05, NetID::Custom06, NetID::Custom07, NetID::Custom08];
@@ -120,6 +184,7 @@ pub fn run(run: &Run) {
             None => run.outcome("testnet-across-activation:prefix-not-accepted"),
         }
     }
+    large_batches_with_one_faucet_twice(run, thorough);
     let _ = AlphaCfg::base();
     run.set("faucet_shapes", json!(faucets().iter().map(|f| f.0.clone()).collect::<Vec<_>>()));
     run.sample(json!({"path": ["genesis[Custom02]", "open", "faucet-a", "seal(None)", "restart", "open", "faucet-a"], "oracle": "second application anywhere is rejected; on mainnet only the grandfathered hash may be accepted"}));
